@@ -18,7 +18,8 @@ TIE = {
            'whileUpTo_resolve); _handle_component_ref (open recursion: the model is the fixpoint of the generated '
            'functional), _add_relationships = Load.buildParents; _add_components = Load.checkComps / varTable; Parser.parse = '
            'C17.loadFull stage by stage (parse_tie). Not tied: _add_variables and add_sibling (leaves), the Transpiler part '
-           'of _add_maths (see C02).',
+           'of _add_maths (see C02). The unit-fix pass the statement relies on (convert_expression_recursively, '
+           'get_conversion_factor) is under the ties of C05 / C07, which this check builds and audits too.',
     'C02': 'Tied (lean/Cellml/Tie/Transpile.lean, 51 theorems): the six wrapped callbacks minus / divide / power / root / log / '
            'diff with python\'s positional binding of operands (wrappedMinus_tie … wrappedDiff_tie, wrapped_params), '
            '_wrapper_relational = callRel (chaining and the boolean-operand checks), _is_bool, the container handlers '
